@@ -17,6 +17,7 @@ H = J'J + lambda D D.  The results are compared with
 Because the comparison is on normal forms, renaming, re-association, J.adjoint() for J.transpose(), moving signs and
 introducing temporaries are all invisible; an expression outside the algebra is analysis-broken (exit 2), not a violation.
 """
+import re
 from fractions import Fraction
 
 import astlib as A
@@ -220,11 +221,22 @@ class Interp:
                 return self.ev(obj)
             if meth == "asDiagonal" and not args:
                 v = self.ev(obj)
-                if v == ("dvec",):
-                    return Lin("mat", {("D",): ONE})
-                raise Unab("asDiagonal of a vector other than d")
+                dp = self.as_dpoly(v)
+                if dp is not None:
+                    return Lin("mat", {("D",) * p_: c for p_, c in dp.items()})
+                raise Unab("asDiagonal of a vector other than a power of d")
+            if meth == "diagonal" and not args:
+                return ("diagonal-of", obj)
+            if meth in ("array", "matrix", "reshaped", "eval", "derived") and not args:
+                return self.ev(obj)
+            if meth in ("cwiseAbs2", "square") and not args:
+                v = self.ev(obj)
+                if self.as_dpoly(v) is not None:
+                    return self.dmul(v, v)
             if meth == "cwiseProduct" and len(args) == 1:
                 a, b = self.ev(obj), self.ev(args[0])
+                if self.as_dpoly(a) is not None and self.as_dpoly(b) is not None:
+                    return self.dmul(a, b)
                 if b == ("dvec",):
                     a, b = b, a
                 if a == ("dvec",) and isinstance(b, Lin) and b.kind == "vec":
@@ -302,7 +314,28 @@ class Interp:
             raise Unab("sum %s" % A.show(e)[:50])
         raise Unab("expression %s" % A.show(e)[:60])
 
+    @staticmethod
+    def as_dpoly(v):
+        """element-wise polynomials in the scaling vector d: {power: coefficient polynomial in lambda}"""
+        if v == ("dvec",):
+            return {1: ONE}
+        if isinstance(v, tuple) and v and v[0] == "dpoly":
+            return v[1]
+        return None
+
+    def dmul(self, a, b):
+        x, y = self.as_dpoly(a), self.as_dpoly(b)
+        if x is None or y is None:
+            return None
+        out = {}
+        for p1, c1 in x.items():
+            for p2, c2 in y.items():
+                out[p1 + p2] = padd(out.get(p1 + p2, {}), pmul(c1, c2))
+        return ("dpoly", {p_: c for p_, c in out.items() if c})
+
     def neg(self, v):
+        if isinstance(v, tuple) and v and v[0] == "dpoly":
+            return ("dpoly", {p_: pmul(c, {0: Fraction(-1)}) for p_, c in v[1].items()})
         if isinstance(v, Lin):
             return v.scale({0: Fraction(-1)})
         if isinstance(v, NVec):
@@ -316,6 +349,10 @@ class Interp:
     def mul(self, a, b):
         if isinstance(a, tuple) and a[0] == "scalar":
             a, b = b, a
+        if isinstance(b, tuple) and b[0] == "scalar" and self.as_dpoly(a) is not None:
+            return ("dpoly", {p_: pmul(c, b[1]) for p_, c in self.as_dpoly(a).items()})
+        if self.as_dpoly(a) is not None and self.as_dpoly(b) is not None:
+            return self.dmul(a, b)          # element-wise (array) product of two scalings
         if isinstance(b, tuple) and b[0] == "scalar":
             if isinstance(a, Lin):
                 return a.scale(b[1])
@@ -427,6 +464,15 @@ def interpret(fn, rep):
                 e = A.to_expr(s)
                 if e[0] == "op" and e[1] == "=" and I.dphi_name and I.dphi_name in A.show(e[2]):
                     I.dphi = (I.ev(e[3]), s)
+                elif e[0] == "op" and e[1] in ("+=", "-=") and diag_target(e[2]) in I.env and isinstance(I.env.get(diag_target(e[2])), Lin):
+                    # H.diagonal() += c(lambda) * d^p  adds  c * D^p  to H
+                    v = I.ev(e[3])
+                    dp = I.as_dpoly(v)
+                    if dp is None:
+                        raise Unab("diagonal update by %s" % A.show(e[3])[:50])
+                    upd = Lin("mat", {("D",) * p_: c for p_, c in dp.items()})
+                    m_ = diag_target(e[2])
+                    I.env[m_] = I.env[m_].add(upd, 1 if e[1] == "+=" else -1)
                 elif e[0] == "op" and e[1] in ("=", "+=", "-=") and e[2][0] == "ref" and e[2][1] in I.env:
                     v = I.ev(e[3])
                     cur = I.env[e[2][1]]
@@ -455,6 +501,14 @@ def interpret(fn, rep):
             else:
                 raise Unab("statement kind %s" % k)
 
+    def diag_target(t):
+        """M for the expressions M.diagonal(), M.diagonal().array(), M.diagonal().noalias()"""
+        while t[0] == "mcall" and t[2] in ("array", "noalias", "matrix", "derived") and not t[4]:
+            t = t[1]
+        if t[0] == "mcall" and t[2] == "diagonal" and not t[4] and t[1][0] == "ref":
+            return t[1][1]
+        return None
+
     def block_stmts(n):
         return A.kids(n) if n.get("kind") == "CompoundStmt" else [n]
 
@@ -471,6 +525,23 @@ def interpret(fn, rep):
         if len(upd) != 1:
             raise Unab("loop with %d updates" % len(upd))
         e = upd[0]
+        # named temporaries of the loop body (const auto d_i = d(i);) are substituted into the update
+        body_locals = {}
+        for v in A.walk(ks[4]):
+            if v.get("kind") == "VarDecl" and A.kids(v) and v.get("name") != var and "InnerIterator" not in v.get("type", {}).get("qualType", ""):
+                body_locals[v.get("name")] = A.to_expr(A.kids(v)[-1])
+
+        def subst(x, depth=0):
+            if depth > 10 or not isinstance(x, (tuple, list)):
+                return x
+            if isinstance(x, list):
+                return [subst(y, depth) for y in x]
+            if x and x[0] == "ref" and x[1] in body_locals:
+                return subst(body_locals[x[1]], depth + 1)
+            if x and x[0] == "lambda":
+                return x
+            return tuple(subst(y, depth) if isinstance(y, (tuple, list)) else y for y in x)
+        e = subst(e)
         tgt = e[2]
         if tgt[0] == "mcall" and tgt[2] == "valueRef" and not tgt[4]:
             its = [v for v in A.walk(loop) if v.get("kind") == "VarDecl" and "InnerIterator" in v.get("type", {}).get("qualType", "")]
@@ -647,106 +718,95 @@ def check_n4(rep, d):
 
 
 def check_n5(rep, d):
+    """N5 on engine M: every colwise_norm body is abstractly executed on a sparse matrix of symbols (both storage orders, non-square, with an empty column) and on a
+    dense matrix seen through its column reductions; the result must be the vector of Euclidean column norms."""
+    import mach
+    import mmodels
+    from mach import AbstractViolation, Cell, PyFunc, Unab, simp, sym
     idx = A.index(d["colwise_norm"])
-    fns = [x for x in idx if x.kind in A.FUNCS and x.pattern and x.qname.split("::")[-1] == "colwise_norm" and A.body(x.node) is not None]
-    if len(fns) != 1:
+    fns = []
+    for x in idx:
+        if x.kind in A.FUNCS and x.pattern and x.qname.split("::")[-1] == "colwise_norm" and A.body(x.node) is not None and x.file and x.file.startswith(fe.INCLUDE):
+            if not any(y.file == x.file and y.line == x.line for y in fns):
+                fns.append(x)
+    if not fns:
         rep.broke("N5: colwise_norm not found")
         return
-    fn = fns[0]
-    M = A.params(fn.node)[0].get("name")
-    b = A.body(fn.node)
-    ifs = [x for x in A.kids(b) if x.get("kind") == "IfStmt" and "sparse" in A.ntext(A.kids(x)[0]).lower()]
-    if len(ifs) != 1 or len(A.kids(ifs[0])) != 3:
-        rep.broke("N5: colwise_norm is no longer `if constexpr (is_sparse) ... else ...`")
-        return
-    ks = A.kids(ifs[0])
-    sparse, dense = (ks[1], ks[2]) if not A.ntext(ks[0]).startswith("!") else (ks[2], ks[1])
-    # --- sparse branch
-    its = [v for v in A.walk(sparse) if v.get("kind") == "VarDecl" and "InnerIterator" in v.get("type", {}).get("qualType", "")]
-    problems = []
-    acc = []
-    for y in A.walk(sparse):
-        if y.get("kind") in ("CompoundAssignOperator", "CXXOperatorCallExpr", "BinaryOperator"):
-            e = A.to_expr(y)
-            if e[0] == "op" and e[1] == "+=":
-                acc.append((e, y))
-    if len(its) != 1 or len(acc) != 1:
-        rep.broke("N5: sparse branch has %d inner iterators and %d accumulations" % (len(its), len(acc)))
-        return
-    it = its[0].get("name")
-    # the outer loop must visit every outer vector: i in [0, M.outerSize()), the iterator constructed as (M, i)
-    outer_ok, outer_why = None, ""
-    for lp in A.walk(sparse):
-        if lp.get("kind") == "ForStmt" and any(v is its[0] for v in A.walk(lp)):
-            ks_ = A.kids(lp)
-            var = next((v.get("name") for v in A.kids(ks_[0]) if v.get("kind") == "VarDecl"), None) if ks_[0].get("kind") == "DeclStmt" else None
-            if var is None or var == it:
-                continue
-            init = next((A.to_expr(A.kids(v)[-1]) for v in A.kids(ks_[0]) if v.get("kind") == "VarDecl" and A.kids(v)), None)
-            cnd = A.to_expr(ks_[2]) if ks_[2].get("kind") else None
-            bound = A.show(cnd[3]).replace(" ", "") if cnd and cnd[0] == "op" and cnd[1] in ("<", "!=") and cnd[2][0] == "ref" and cnd[2][1] == var else None
-            itinit = A.to_expr(A.kids(its[0])[-1])
-            itargs = itinit[2] if itinit[0] in ("ctor", "call") else (itinit[1] if itinit[0] == "init" else [])
-            it_ok = len(itargs) == 2 and itargs[0][0] == "ref" and itargs[0][1] == M and itargs[1][0] == "ref" and itargs[1][1] == var
-            if bound is None or init != ("num", 0) or not it_ok:
-                outer_ok, outer_why = None, "outer loop shape"
-            elif bound == "%s.outerSize()" % M:
-                outer_ok = True
-            elif bound in ("%s.cols()" % M, "%s.rows()" % M, "%s.innerSize()" % M):
-                outer_ok, outer_why = False, ("the outer loop runs to %s, which is the number of outer vectors only for one storage order (and only for square "
-                                               "matrices otherwise): entries of the remaining outer vectors are never accumulated" % bound)
-            else:
-                outer_ok, outer_why = None, "outer loop bound %s" % bound
-            outer_node = lp
-            break
-    if outer_ok is None:
-        rep.broke("N5: cannot interpret the outer loop of colwise_norm's sparse branch (%s)" % (outer_why or "not found"))
-    else:
-        fo, lo = A.loc(outer_node)
-        rep.instance("N5", "colwise_norm", "sparse outer loop", ok=outer_ok, sample={"file": fe.rel(fo), "line": lo})
-        if not outer_ok:
-            rep.violation(Finding("N5", "colwise_norm", "sparse outer loop", outer_why, fo, lo))
-    e, node = acc[0]
-    tgt = e[2]
-    idxs = tgt[2] if tgt[0] == "call" else (tgt[4] if tgt[0] == "mcall" else (tgt[2] if tgt[0] == "sub" else None))
-    if tgt[0] == "mcall" and tgt[2] not in ("coeffRef", "operator()"):
-        idxs = None
-    if not idxs or len(idxs) != 1:
-        rep.broke("N5: accumulation target %s is not a single-index element" % A.show(tgt)[:40])
-        return
-    ix = idxs[0]
-    by_col = ix[0] == "mcall" and ix[1][0] == "ref" and ix[1][1] == it and ix[2] == "col" and not ix[4]
-    # value: (it.value())^2
-    def is_val(x):
-        return x[0] == "mcall" and x[1][0] == "ref" and x[1][1] == it and x[2] == "value" and not x[4]
-    v = e[3]
-    fpow2 = any(y.get("kind") == "CallExpr" and A.ntext(y).replace("detail::", "").startswith("fpow<2>(") for y in A.walk(node))
-    squared = ((v[0] == "call" and str(v[1]).split("::")[-1].split("<")[0] == "fpow" and fpow2 and len(v[2]) == 1 and is_val(v[2][0]))
-               or (v[0] == "op" and v[1] == "*" and is_val(v[2]) and is_val(v[3]))
-               or (v[0] == "call" and str(v[1]).split("::")[-1] in ("abs2", "norm") and len(v[2]) == 1 and is_val(v[2][0])))
-    txt = A.ntext(sparse)
-    rooted = "cwiseSqrt()" in txt or ".sqrt()" in txt
-    zeroed = "setZero(" in txt or "Zero(" in txt
-    ok = by_col and squared and rooted and zeroed
-    rep.instance("N5", "colwise_norm", "sparse", ok=ok, sample={"file": fe.rel(fn.file), "line": fn.line, "index": A.show(ix)})
-    if not ok:
-        f, l = A.loc(node)
-        why = []
-        if not by_col:
-            why.append("the accumulator is indexed by %s, which is the column only for one storage order; the column of the entry is %s.col()" % (A.show(ix), it))
-        if not squared:
-            why.append("the accumulated value %s is not the square of the entry" % A.show(v)[:40])
-        if not rooted:
-            why.append("no square root is taken")
-        if not zeroed:
-            why.append("the accumulator is not zero-initialised")
-        rep.violation(Finding("N5", "colwise_norm", "sparse", "; ".join(why), f, l))
-    # --- dense branch
-    dn = A.ntext(dense)
-    okd = ("%s.colwise().norm()" % M) in dn or ("%s.colwise().stableNorm()" % M) in dn
-    rep.instance("N5", "colwise_norm", "dense", ok=okd, sample={"text": dn[:80]})
-    if not okd:
-        if "rowwise()" in dn or "squaredNorm" in dn or "lpNorm" in dn:
-            rep.violation(Finding("N5", "colwise_norm", "dense", "the dense branch is `%s`, not the Euclidean norm of each column" % dn[:80], fn.file, fn.line))
+
+    def machine(arg):
+        def types(M, tyn, args, env):
+            if tyn.startswith(("Eigen::Vector<", "constEigen::Vector<", "Eigen::VectorX", "detail::ColwiseVector", "ColwiseVector")):
+                if not args:
+                    return mmodels.DVec([], "ret")
+                v = M.eval(args[0], env)
+                if isinstance(v, mach.Vec):
+                    return mmodels.DVec(list(v.items), "ret")
+                if mach.is_num(v):
+                    return mmodels.DVec([mach.UNSET] * int(simp(v)), "ret")
+            if "InnerIterator" in tyn:
+                vals = [M.eval(a, env) for a in args]
+                return mmodels.InnerIt(vals[0], vals[1])
+            return NotImplemented
+
+        def fpow(M, args, env, name):
+            m = re.search(r"fpow<(\d+)>", name or "")
+            v = M.eval(args[0], env)
+            r = Fraction(1)
+            for _ in range(int(m.group(1)) if m else 2):
+                r = M.arith("*", r, v)
+            return r
+
+        def traitname(M, n, env, _):
+            t = n or ""
+            if "is_base_of" in t and "Sparse" in t:
+                return isinstance(arg, mmodels.Sparse)
+            if "SparseMatrixLike" in t or "is_sparse" in t:
+                return isinstance(arg, mmodels.Sparse)
+            return NotImplemented
+        M = mach.Machine(type_factory=types, funcs={"fpow": PyFunc(fpow, lazy=True), "name:*": PyFunc(traitname, lazy=True),
+                                                   "Zero": PyFunc(lambda M_, v: mmodels.DVec([Fraction(0)] * int(simp(v[0])), "Zero")),
+                                                   "sqrt": PyFunc(lambda M_, v: mmodels.usym("sqrt", v[0])),
+                                                   "abs2": PyFunc(lambda M_, v: M_.arith("*", v[0], v[0]))})
+        M.global_env = mach.Env()
+        return M
+
+    entries = {(0, 0): sym("m00"), (2, 0): sym("m20"), (1, 1): sym("m11"), (0, 3): sym("m03"), (1, 3): sym("m13"), (2, 3): sym("m23")}      # column 2 is empty
+    scen = [("sparse column-major 3x4", lambda: mmodels.Sparse(3, 4, dict(entries), False, "M")), ("sparse row-major 3x4", lambda: mmodels.Sparse(3, 4, dict(entries), True, "M")),
+            ("dense 3x4", lambda: mmodels.DenseCols("M", 3, 4))]
+    for name, mk in scen:
+        arg = mk()
+        want = None
+        if isinstance(arg, mmodels.Sparse):
+            want = []
+            for c in range(4):
+                acc = Fraction(0)
+                for (r_, c_), v in sorted(entries.items()):
+                    if c_ == c:
+                        acc = mach.simp(mach.to_rf(acc) + mach.to_rf(v) * mach.to_rf(v))
+                want.append(mmodels.usym("sqrt", acc))
         else:
-            rep.broke("N5: dense branch `%s` not recognised" % dn[:80])
+            want = [sym("norm(col %d of M)" % c) for c in range(4)]
+        results = []
+        reasons = []
+        for fn in fns:
+            try:
+                r = machine(arg).run_function(fn, [Cell(mk())])
+                results.append((fn, r))
+            except Unab as ex:
+                reasons.append("%s:%s: %s" % (fe.rel(fn.file), fn.line, ex))
+            except AbstractViolation as ex:
+                results.append((fn, ("violation", str(ex))))
+        if not results:
+            rep.broke("N5: no colwise_norm body could be executed for a %s argument (%s)" % (name, "; ".join(reasons)[:300]))
+            continue
+        for fn, r in results:
+            bad = None
+            if isinstance(r, tuple) and r and r[0] == "violation":
+                bad = r[1]
+            else:
+                vals = r.items if isinstance(r, mach.Vec) else None
+                if vals is None or len(vals) != 4 or not all(v is not mach.UNSET and mach.num_equal(v, w) for v, w in zip(vals, want)):
+                    bad = "returns %s; the Euclidean norms of the 4 columns are %s" % (mach.show_val(r)[:260], [mach.show_val(w) for w in want])
+            rep.instance("N5", "colwise_norm", name, ok=bad is None, sample={"file": fe.rel(fn.file), "line": fn.line})
+            if bad:
+                rep.violation(Finding("N5", "colwise_norm", name, "colwise_norm of a %s matrix: %s" % (name, bad), fn.file, fn.line))
